@@ -258,6 +258,19 @@ func c04Structure(inEv, outEv []c04Event) (pairs []c04DeclPair, problem string) 
 	return pairs, ""
 }
 
+// c04AddDiff records a model/implementation difference, at most ten per stage: the report keeps 40 findings in all, and
+// a burst of differences of one stage must not crowd out the failing inputs of a later one.
+var c04DiffCount = map[string]int{}
+
+func c04AddDiff(c *Ctx, st *h.Stage, f h.Finding) {
+	c04DiffCount[st.Name]++
+	if n := c04DiffCount[st.Name]; n <= 10 {
+		c.R.Add(f)
+	} else if n == 11 {
+		c.R.Note("%s: more than ten model/implementation differences, the rest is not listed", st.Name)
+	}
+}
+
 // ---------- one declaration case ----------
 
 type c04Case struct {
@@ -389,7 +402,7 @@ func c04RunCases(c *Ctx, st *h.Stage, cases []c04Case, compareModel bool) error 
 		if j.modelLine >= 0 {
 			b, ok, msg := h.DecodeReply(rep[j.modelLine])
 			if !ok {
-				c.R.Add(h.Finding{Stage: st.Name, Kind: "diff", What: "model.c04.decl: model error " + msg, Input: src, Config: k.cfg(), Impl: j.out})
+				c04AddDiff(c, st, h.Finding{Stage: st.Name, Kind: "diff", What: "model.c04.decl: model error " + msg, Input: src, Config: k.cfg(), Impl: j.out})
 				continue
 			}
 			parts := h.DecodeListReply(b)
@@ -407,7 +420,7 @@ func c04RunCases(c *Ctx, st *h.Stage, cases []c04Case, compareModel bool) error 
 				want = "a{" + want + "}"
 			}
 			if want != j.out {
-				c.R.Add(h.Finding{Stage: st.Name, Kind: "diff", What: "model.c04.decl", Input: src, Hex: h.HexS(src), Config: k.cfg(), Impl: j.out, Model: want})
+				c04AddDiff(c, st, h.Finding{Stage: st.Name, Kind: "diff", What: "model.c04.decl", Input: src, Hex: h.HexS(src), Config: k.cfg(), Impl: j.out, Model: want})
 			}
 		}
 	}
@@ -851,21 +864,22 @@ func c04Known(c *Ctx) {
 
 func init() {
 	register("C04", func(c *Ctx) error {
-		c04Tables(c)
-		if err := c04Num(c); err != nil {
-			return err
+		// C04_STAGES=limits,longsheet runs only these stages (development aid; ./check never sets it)
+		only := os.Getenv("C04_STAGES")
+		want := func(n string) bool { return only == "" || strings.Contains(","+only+",", ","+n+",") }
+		if want("tables") {
+			c04Tables(c)
 		}
-		if err := c04Decl(c); err != nil {
-			return err
-		}
-		if err := c04BgPos(c); err != nil {
-			return err
-		}
-		if err := c04Sheets(c); err != nil {
-			return err
-		}
-		if err := c04Sweep(c); err != nil {
-			return err
+		for _, s := range []struct {
+			name string
+			run  func(*Ctx) error
+		}{{"num", c04Num}, {"decl", c04Decl}, {"bgpos", c04BgPos}, {"limits", c04Limits}, {"sheet", c04Sheets}, {"longsheet", c04LongSheets}, {"sweep", c04Sweep}} {
+			if !want(s.name) {
+				continue
+			}
+			if err := s.run(c); err != nil {
+				return err
+			}
 		}
 		c04Known(c)
 		return nil
